@@ -155,6 +155,31 @@ def gen_case(rng, tier, index):
                          "cfi": [".cfi_restore_state", []]}]
             p["cfi_kind"] = kind
     case["nproc"] = nproc
+    if rng.random() < 0.15:
+        # a whole function added by the same rewrite, written the way a
+        # compiler writes one: explicit procedures (one or two abutting
+        # ones), labels right behind .cfi_startproc / .cfi_endproc
+        def cfi(name, *args):
+            return {"raw": name + (" " + ", ".join(map(str, args))
+                                   if args else ""),
+                    "cfi": [name, list(args)]}
+        lines = [cfi(".cfi_startproc")]
+        if rng.random() < 0.4:
+            lines.append({"l": "nf0_begin"})
+        lines.append(cfi(".cfi_def_cfa", 7, 8))
+        lines += [{"k": "mark", "imm": gen_rewrite.MARK_BASE + 0x8000},
+                  cfi(".cfi_def_cfa_offset", 16), {"k": "nop"},
+                  cfi(".cfi_def_cfa_offset", 8), {"k": "ret"},
+                  cfi(".cfi_endproc")]
+        if rng.random() < 0.5:
+            lines.append({"l": ".Lnf0_end", "temp": True})
+        if rng.random() < 0.5:
+            lines += [{"l": "nf0_helper"}, cfi(".cfi_startproc"),
+                      cfi(".cfi_def_cfa", 7, 8),
+                      {"k": "nop"}, {"k": "ret"}, cfi(".cfi_endproc")]
+            if rng.random() < 0.5:
+                lines.append({"l": ".Lnf0_end2", "temp": True})
+        case["newfuncs"] = [{"name": "newfn0", "p": {"lines": lines}}]
     return case
 
 
@@ -240,11 +265,15 @@ def module_locations(bu, ob):
     m = bu.module
     table = m.aux_data["cfiDirectives"].data
     locs = []
+    known = {id(bi) for row in bu.intervals for bi in row}
     for off, ds in table.items():
         blk = off.element_id
         if not isinstance(blk, gtirb.CodeBlock):
             locs.append(("bad", "non-code-element"))
             continue
+        if blk.byte_interval is not None and \
+                id(blk.byte_interval) not in known:
+            continue      # an inserted function: new_function_locations
         p = ob.blockpos(blk)
         if p is None:
             locs.append(("bad", "detached-block"))
@@ -258,6 +287,25 @@ def module_locations(bu, ob):
                      [(d[0], list(d[1]), d[2].name if isinstance(
                          d[2], gtirb.Symbol) else None) for d in ds]))
     return locs
+
+
+def new_function_locations(bu):
+    """directives of the code in intervals the rewrite added, per interval"""
+    known = {id(bi) for row in bu.intervals for bi in row}
+    out = {}
+    table = bu.module.aux_data["cfiDirectives"].data
+    for off, ds in table.items():
+        blk = off.element_id
+        bi = getattr(blk, "byte_interval", None)
+        if bi is None or id(bi) in known or not isinstance(
+                blk, gtirb.CodeBlock):
+            continue
+        out.setdefault(id(bi), []).append(
+            (0, blk.offset + off.displacement,
+             blk.offset - (0 if blk.size else 0.5),
+             [(d[0], list(d[1]), d[2].name if isinstance(
+                 d[2], gtirb.Symbol) else None) for d in ds]))
+    return list(out.values())
 
 
 def evaluate(locs):
@@ -380,6 +428,21 @@ def run_case(case):
         return "".join(out)
     p0, p1 = procs(state["locs0"]), procs(locs1)
     ctr["procedures"] += p0.count("s")
+    for nf in case.get("newfuncs", []):
+        # the inserted function brings its procedures along, opened and
+        # closed once each and in order
+        want_p = "".join(ln["cfi"][0][5] for ln in nf["p"]["lines"]
+                         if "cfi" in ln and ln["cfi"][0] in (
+                             ".cfi_startproc", ".cfi_endproc"))
+        groups = new_function_locations(r.bu)
+        ctr["inserted_function_procedures"] = ctr.get(
+            "inserted_function_procedures", 0) + want_p.count("s")
+        got_p = "".join(sorted(procs(g) for g in groups))
+        errs = [evaluate(g)[1] for g in groups]
+        if got_p != want_p or any(errs):
+            viol.append({
+                "key": "cfi:inserted-function-procedures-differ",
+                "msg": f"{got_p} != {want_p}; {[e for e in errs if e]}"})
     # instruction projection
     pos0 = {}
     for si, ii, t in lst0.all_tokens():
